@@ -1,6 +1,6 @@
 from .common import frame_unit, EMU_FILES
 LEVEL = "other"
-EXPLANATION = "under construction"
+EXPLANATION = ("BOUNDED (native): long-lived Sampler (303 histories quick), QuickSampler (150) and Analyzer (call sequences) versus a freshly created object with the same settings: after every sequence of <=2 (thorough 3) reconfiguration steps out of 10 kinds (new unitary, in-place circuit edit, parameter value, input state, herald photon number, herald mode, brightness, indistinguishability, backend, loss) with a distribution read after each step, every kind of read (distribution, sample, sample_N_inputs, sample_N_outputs with fixed seeds) is identical; sampling works as the first read; an analysis result carries only quantities computed by that call. PROVED (frame pass): no emulator module writes module- or class-level mutable state. NOT under contract: the 'reads are a subset of the configuration snapshot' obligation of DESIGN section 5 was not built.")
 ASSUMPTIONS = ["bounded: histories of <=2 (quick) / <=3 (thorough) reconfiguration steps from 10 step kinds, each followed by every kind of read"]
 TRUSTED = ["identical code path on identical inputs gives identical floats (comparison to 1e-12)"]
 
